@@ -65,6 +65,10 @@ Section Inst.
     | _ => a
     end.
 
+  (* isinstance(x, numbers.Number) and x == 0.0 : uncertain numbers are not numbers.Number *)
+  Definition skipz (a : elt) : bool :=
+    match a with EU _ => false | _ => isz a end.
+
   Definition FElt : Elt := {|
     E := elt; W := V;
     e_of_Z := EI;
@@ -72,6 +76,7 @@ Section Inst.
     e_rdiv1 := fun x => bin B_div (EN (of_Z N 1)) x;
     e_pos := pos;
     e_isz := isz;
+    e_skip := skipz;
     e_abs := fun x => nabs N (val x);
     w_zero := of_Z N 0;
     w_gt := fun a b => ltb N b a;
